@@ -21,6 +21,11 @@ STALL_KINDS = {
 }
 
 
+# set by the determinism self-test (harness.campaign 'digest' tasks): every run's full event-log
+# digest is then returned with the statistics
+WANT_RUN_DIGESTS = [False]
+
+
 def pilot_info(run):
     sim = run.sim
     info = {'decisions': sim.decisions, 'steps': sim.thread_steps, 'now': sim.now,
@@ -155,6 +160,8 @@ def add_run_stats(st, run, an, windows, label):
         st['windows'].append('|'.join(w))
     st['unknown_lines'] += an.unknown_lines
     st['boards'] += getattr(an, 'complete_boards', 0)
+    if WANT_RUN_DIGESTS[0]:
+        st.setdefault('run_digests', []).append(run.digest)
     nb = len((run.scn or {}).get('boards') or ())
     key = 'sessions_with_%s_boards' % (nb if nb < 5 else '5+')
     st['extra'][key] = st['extra'].get(key, 0) + 1
